@@ -138,7 +138,30 @@ GUARDS = (
     'not (fp.isfinite(x) and x > 0)',
     'x >= 0 and not fp.isinf(x)',
     'fp.isinf(x) and x > 0 or fp.isnan(x)',
+    # plain comparisons, literal on either side: what a comparison that holds / fails says about NaN, zero and the infinities
+    'x != 0', '0 != x', 'x == 0', '0 == x', 'not x == 0', 'not x != 0',
+    'x < 0', '0 < x', 'x <= 0', '0 >= x', 'x >= 1', '1 > x', 'x != 1', 'x == 1',
+    'x != 0 and x < 4', 'x != 0 or x > 4', '-1 < x < 1', 'not (x < 0)', 'not (0 <= x)',
 )
+
+
+# Value sets with a statically known member -0.0 (and controls without one), as (shape, statements binding z, uses `c`).
+CONSTSETS = {
+    'negzero-literal': ('    z = -0.0\n', False),
+    'negzero-or-one': ('    with fp.FP64:\n        z = -0.0 if c else 1.0\n', True),
+    'negzero-or-poszero': ('    with fp.FP64:\n        z = -0.0 if c else 0.0\n', True),
+    'negzero-or-half-real': ('    z = -0.0 if c else 0.5\n', True),
+    'three-members': ('    with fp.FP64:\n        z = (-0.0 if c else 2.0) if c else -1.0\n', True),
+    'poszero-or-one': ('    with fp.FP64:\n        z = 0.0 if c else 1.0\n', True),
+    'minus-two-or-three': ('    z = -2 if c else 3\n', True),
+}
+
+
+def constset_src(shape: str, op: str, scope_text: str) -> str:
+    """`z` bound to a small constant set, then `with <scope>: y = round(z) | cast(z)`; returns y."""
+    bind, uses_c = CONSTSETS[shape]
+    sig = 'def q(c: bool) -> fp.Real:' if uses_c else 'def q() -> fp.Real:'
+    return f'@fp.fpy(ctx=fp.REAL)\n{sig}\n{bind}    with {scope_text}:\n        y = fp.{op}(z)\n    return y\n'
 
 
 def quantize_src(ctx_text: str, form: str, annotated: bool) -> str:
